@@ -214,6 +214,24 @@ Check C03_step : forall dbg hp hpo hd u o u', HostWf hp hpo hd -> IpDisp hd ->
   apply_op dbg hp hpo hd u o = Some u' -> wf_b u' = true /\ host_text_ok u'.
 Print Assumptions C03_step.
 
+(* every class of excl03 is needed in C03_step: for each, a record satisfying wf_b /\ host_text_ok, a call in the
+   class and a result that is NOT wf_b (host functions: every text is a domain).  The receivers of the first nine
+   are reachable (they are the known findings); the receiver of the last one, "http:///p" with an empty host, is
+   not known to be reachable - it shows that C03_step itself needs the auth_end_b exclusion. *)
+Theorem C03_excl03_exact :
+  excl_witness w_marker (OSetHost (Some (B "h"))) = true
+  /\ excl_witness w_marker (OSetIpHost (HIpv4 1)) = true
+  /\ excl_witness w_port (OSetHost (Some [])) = true
+  /\ excl_witness w_2slash (OSetHost None) = true
+  /\ excl_witness w_opaque (OSetPath (B "?")) = true
+  /\ excl_witness w_noauth (OSetPath (B "//x")) = true
+  /\ excl_witness w_noauth (OQPathname (B "//x")) = true
+  /\ excl_witness w_marker (OSetPath (B "/q")) = true
+  /\ excl_witness w_marker (OPathSegments [PClear]) = true
+  /\ excl_witness w_auth_end (OSetPath (B "x")) = true.
+Proof. exact excl03_witnesses. Qed.
+Print Assumptions C03_excl03_exact.
+
 (* reach03a dbg hp hpo hd (Proofs/C03_Reachability.v): parse_url without a base; parse_url against a reached
    base that satisfies base_ok (C04: a special base is not cannot-be-a-base - true of every parse result, not
    yet carried as an invariant); Url::from_file_path / from_directory_path of a byte string; and any sequence of
